@@ -204,7 +204,7 @@ def units(run: Run):
     # larger player counts: edges minimal -> minimal+S -> minimal+S+T and full-S -> full, on structurally different exact games
     for n in ((5, 6) if quick else (5, 6, 7)):
         for tag, gv in (A.larger_n_samples(n) if n >= 6 else [("pairgraph", A.shifted(g, A.SHIFT_LONG[:5])) for g in A.a5_pair_closure_reps()[seed % 7::7]]):
-            if quick and n == 6 and not tag.startswith(("matching-shift", "two-cliques+")):
+            if quick and n == 6 and not tag.startswith(("matching-shift", "star+convex")):
                 continue
             us.append((n, f"n{n}:{tag}", gv, SA if n == 5 else SA[1:], ("gaps",), 0.0))
         for k in (1, n // 2, n - 1):
